@@ -92,6 +92,7 @@ SilentStep ==
   /\ l <= Len(Tr)
   /\ \/ ((MainSubmit \/ MainWake \/ MainCancel \/ MainParentMark) /\ H3 /\ H4 /\ H5)
      \* the refresh checkpoint of the timer thread returns (a failing one sets the completion event: observed as EvSet)
+     \/ ((TimerAddCb \/ TimerInlineDone) /\ H3 /\ H4 /\ UNCHANGED <<tphAtSusp, stale, badSusp>>)
      \/ (TimerRefreshed(TRUE) /\ H3 /\ H4 /\ UNCHANGED <<tphAtSusp, stale, badSusp>>)
      \/ (TimerRefreshed(FALSE) /\ H3 /\ H4 /\ UNCHANGED <<tphAtSusp, stale, badSusp>> /\ event' = event)
      \/ \E i \in Br :
@@ -101,6 +102,7 @@ SilentStep ==
           \* done-callback steps that do not set the completion event for the first time
           \/ (CbWrite(i) /\ CbSnapW(i) /\ H4 /\ H5 /\ event' = event)
           \/ (CbCount(i) /\ H3 /\ H4 /\ H5)
+          \/ (CbSchedule(i) /\ H3 /\ H4 /\ H5)
           \/ (CbDecide(i) /\ H3 /\ H4 /\ H5 /\ event' = event)
           \/ (CbScan(i) /\ CbSnapS(i) /\ H4 /\ H5 /\ event' = event)
   /\ Silent
